@@ -14,6 +14,10 @@ CONSTANTS
   Apis = {"dump"}
   ScalarKinds = {"w"}
   CollKinds = {"BS", "FS", "BM", "FM"}
+  LongClasses = {}
+  LongLens = {}
+  LongStyles = {"P"}
+  FixD12 = FALSE
   Anchors = FALSE
   ExplicitTags = FALSE
   MaxEvents = 6
@@ -27,5 +31,6 @@ INVARIANT HD
 INVARIANT HE
 INVARIANT HF
 INVARIANT HG
+INVARIANT HA
 INVARIANT EntriesConsistent
 INVARIANT Complete
